@@ -61,8 +61,18 @@ func c19RunReady(ctx *core.Ctx, in c19Input) {
 	var asked atomic.Int32
 	release := make(chan fetchAnswer, 4)
 	var teardown atomic.Bool
+	// every log call of the code under test is a schedule point: it returns only when all the
+	// other goroutines of the case have run as far as they can (so a window between two
+	// statements that contains a log call - e.g. between signalling readiness and the next step
+	// of Run - is explored deterministically, not by luck)
+	var threads threadSet
+	var seamStalls atomic.Int32
 	s := spiffe.New(spiffe.Options{
-		Log: &hookLogger{},
+		Log: &hookLogger{hook: func() {
+			if !threads.othersQuiescent(2 * time.Second) {
+				seamStalls.Add(1)
+			}
+		}},
 		RequestSVIDFn: func(_ context.Context, csrDER []byte) ([]*x509.Certificate, error) {
 			asked.Add(1)
 			if teardown.Load() {
@@ -88,7 +98,6 @@ func c19RunReady(ctx *core.Ctx, in c19Input) {
 	src := s.SVIDSource()
 	runCtx, runCancel := context.WithCancel(context.Background())
 
-	var threads threadSet
 	var clients []*rdClient
 	runCalled := false
 	var fetched *fetchAnswer
@@ -206,7 +215,7 @@ loop:
 		as, st := observe()
 		if !hung && !satisfied(as, st) {
 			if os.Getenv("C19_DEBUG") != "" {
-				for _, t := range threads.ts {
+				for _, t := range threads.all() {
 					fmt.Fprintf(os.Stderr, "tracked %d fin=%v last=%q\n", t.goid, t.fin, lastStates[t.goid])
 				}
 				n := runtime.Stack(stackBuf, true)
@@ -293,6 +302,9 @@ loop:
 	if nquiesceFail > 0 {
 		c.Note = fmt.Sprintf("quiescence not detected within the deadline %d time(s)", nquiesceFail)
 		ctx.Sink.Count("ready/quiescence_deadline")
+	}
+	if seamStalls.Load() > 0 {
+		ctx.Sink.Count("ready/seam_wait_expired")
 	}
 	ctx.Sink.Count("kind=ready")
 	if getBeforeRun {
